@@ -64,6 +64,12 @@ def cases(ctx):
                             if ctx.mine(k):
                                 yield {"kind": "keep", "variant": var, "bells": list(bells), "hardware": hw,
                                        "others": others, "expect_phi_plus": expect}
+                            if not var.endswith("_retry") and "rsp" not in var:
+                                # the link layer hands its responses over as qlink-interface 1.0 objects (own Bell-state enum)
+                                k += 1
+                                if ctx.mine(k) and (not ctx.quick or n == 1 or rng.random() < 0.3):
+                                    yield {"kind": "keep", "variant": var, "bells": list(bells), "hardware": hw,
+                                           "others": others, "expect_phi_plus": expect, "qlink10": True}
                             if hw == "generic" and not var.endswith("_seq") and "post" not in var and "seq" not in var:
                                 # a unit module with exactly as many qubits as the request needs (n = 1: a single-qubit node)
                                 k += 1
@@ -131,7 +137,7 @@ def _keep(ctx, case):
         link = LinkModel([first, req])
     else:
         req = PlannedRequest(role, tp, n, bells=bells)
-        link = LinkModel([req])
+        link = LinkModel([req], qlink10=bool(case.get("qlink10")))
     pipe = Pipe(epr_sockets=[es], link=link, max_qubits=(n + others) if case.get("tight") else max(budget, 2), hardware=hw)
     ex = pipe.ex
     seq_results = []
